@@ -35,10 +35,13 @@ def cases(thorough):
                         for sh in shapes:
                             yield {"block": "binary", "nvec": nvec, "op": opname, "kind": kind, "u1": u1, "u2": u2, "dt": dt, "shape": sh}
         for opname in ("neg", "pow2", "pow0.5", "pow-1", "rmul", "rtruediv", "radd", "rsub", "np.sqrt", "np.abs", "np.negative", "np.sum",
-                       "np.add", "np.multiply", "np.concatenate", "np.isfinite", "reshape", "getitem_slice", "getitem_mask", "copy"):
+                       "np.add", "np.multiply", "np.concatenate", "np.isfinite", "reshape", "getitem_slice", "getitem_mask", "copy",
+                       # the same object in two roles
+                       "alias:concatenate_vv", "alias:concatenate_vwv", "alias:stack_vv", "alias:hstack_wvwv", "alias:add_vv", "alias:mul_vv", "alias:sub_vv",
+                       "alias:truediv_vv", "alias:np.add_vv", "alias:lt_vv", "alias:vstack_vv"):
             for (u1, u2) in UNIT_PAIRS:
                 for dt in dts:
-                    for sh in (["3", "2x3"] if opname in ("np.concatenate", "getitem_slice", "getitem_mask", "reshape") else shapes):
+                    for sh in (["3", "2x3"] if (opname in ("np.concatenate", "getitem_slice", "getitem_mask", "reshape") or opname.startswith("alias:")) else shapes):
                         yield {"block": "other", "nvec": nvec, "op": opname, "u1": u1, "u2": u2, "dt": dt, "shape": sh}
         for opname in ("and", "or", "xor", "invert"):
             for kind in ("Vector", "Array", "bool"):
@@ -198,6 +201,14 @@ def run_case(acc, idx, c):
             "reshape": (lambda: v.reshape(-1), lambda a, b: a.reshape(-1)),
             "getitem_slice": (lambda: v[1:], lambda a, b: a[1:]), "getitem_mask": (lambda: v[mask], lambda a, b: a[mask]),
             "copy": (lambda: v.copy(), lambda a, b: a.copy()),
+            "alias:concatenate_vv": (lambda: np.concatenate([v, v]), lambda a, b: np.concatenate([a, a])),
+            "alias:concatenate_vwv": (lambda: np.concatenate([v, w, v]), lambda a, b: np.concatenate([a, b, a])),
+            "alias:stack_vv": (lambda: np.stack([v, v]), lambda a, b: np.stack([a, a])),
+            "alias:vstack_vv": (lambda: np.vstack([v, v]), lambda a, b: np.vstack([a, a])),
+            "alias:hstack_wvwv": (lambda: np.hstack([w, v, w, v]), lambda a, b: np.hstack([b, a, b, a])),
+            "alias:add_vv": (lambda: v + v, lambda a, b: a + a), "alias:mul_vv": (lambda: v * v, lambda a, b: a * a),
+            "alias:sub_vv": (lambda: v - v, lambda a, b: a - a), "alias:truediv_vv": (lambda: v / v, lambda a, b: a / a),
+            "alias:np.add_vv": (lambda: np.add(v, v), lambda a, b: np.add(a, a)), "alias:lt_vv": (lambda: v < v, lambda a, b: a < a),
         }
         fv, fa = table[name]
         vres = outcome(fv)
